@@ -467,7 +467,7 @@ func (f *FnVC) resolveLoc(v ssa.Value) Loc {
 		switch xt := x.X.Type().Underlying().(type) {
 		case *types.Slice:
 			s := f.val(x.X).T
-			return Loc{heap: f.elemHeap(xt.Elem()), steps: []step{{sel: sApp("s_ref", s)}, {sel: sAdd(sApp("s_off", s), f.val(x.Index).T)}}, ty: xt.Elem()}
+			return Loc{heap: f.elemHeap(xt.Elem()), steps: []step{{sel: sApp("s_ref", s)}, {sel: sIdx(sApp("s_off", s), f.val(x.Index).T)}}, ty: xt.Elem()}
 		case *types.Pointer:
 			at := xt.Elem().Underlying().(*types.Array)
 			if f.isInterior(x.X) {
